@@ -111,7 +111,7 @@ def assemble(unit_path, variant=None):
             A.emit(text, "extract", qual, lmap, p["relpath"])
             end = len(A.lines)
             A.rewrites += log
-            mode = "M3" if ann.get("slice_k") is not None else ("M2" if ann.get("replaces") else "M1")
+            mode = "M3" if ann.get("slice_k") is not None else ("M2" if (ann.get("replaces") or ann.get("maploops") or ann.get("forloops")) else "M1")
             if ann.get("external_body"):
                 mode = "ASSUMED"
                 A.trusted.append(f"assumed contract (body not verified): {p['relpath']}::{qual}")
@@ -157,6 +157,14 @@ def assemble(unit_path, variant=None):
             ann.setdefault("closures", {})[arg] = text
         elif name == "loop":
             ann.setdefault("loops", {})[arg] = text
+        elif name == "maploop":
+            ann.setdefault("maploops", {})[arg] = text
+        elif name == "forloop":
+            ann.setdefault("forloops", {})[arg] = text
+        elif name == "looptail":
+            ann.setdefault("looptails", {})[arg] = text
+        elif name == "loophead":
+            ann.setdefault("loopheads", {})[arg] = text
         elif name == "head":
             ann["head"] = (ann.get("head") or "") + text
         elif name == "before":
@@ -191,7 +199,7 @@ def assemble(unit_path, variant=None):
         d, rest = m.group(1), m.group(2).strip()
         if d != "use":
             flush_groups()
-        if d in ("requires", "ensures", "closure", "loop", "head", "before", "after", "replace", "with", "decreases"):
+        if d in ("requires", "ensures", "closure", "loop", "maploop", "forloop", "looptail", "loophead", "head", "before", "after", "replace", "with", "decreases"):
             close_section()
             if pending is None:
                 raise Inconclusive(f"{unit_path}:{i+1}: //@{d} outside //@fn")
